@@ -17,8 +17,8 @@ static const uintptr_t U[] = {
 };
 #define NU ((int)(sizeof U / sizeof U[0]))
 static char VA, VB;
-static void *VALS[3];
-#define NV 3
+static void *VALS[4];
+#define NV 4
 
 static int replay_mode;
 static char cur_hist[2048];
@@ -63,6 +63,11 @@ static int hcanon(PHashTable *t, char *buf, size_t sz)
 }
 
 static int cmp_ptr(pconstpointer a, pconstpointer b) { return a == b ? 0 : 1; }
+/* the comparator is an acceptance predicate (0 = accept), not necessarily an equality: one that accepts nothing, one that accepts everything, one that accepts exactly the values that differ */
+static long cmp_calls;
+static int cmp_never(pconstpointer a, pconstpointer b) { (void)a; (void)b; cmp_calls++; return 1; }
+static int cmp_always(pconstpointer a, pconstpointer b) { (void)a; (void)b; cmp_calls++; return 0; }
+static int cmp_differs(pconstpointer a, pconstpointer b) { cmp_calls++; return a != b ? 0 : 1; }
 
 static long n_lookups, n_lists, n_trans;
 
@@ -101,6 +106,14 @@ static void hvalidate(PHashTable *t, const HRef *r)
             l = p_hash_table_lookup_by_value(t, VALS[v], f ? cmp_ptr : NULL);
             check_list_is(l, w, nw, 0, f ? "table/lookup-by-value-func" : "table/lookup-by-value", "p_hash_table_lookup_by_value");
             p_list_free(l); n_lists++;
+        }
+        {   /* non-equality predicates */
+            int wa[NU], na = 0, wd[NU], nd = 0;
+            for (i = 0; i < NU; i++) if (r->present[i]) { wa[na++] = i; if (r->val[i] != v) wd[nd++] = i; }
+            l = p_hash_table_lookup_by_value(t, VALS[v], cmp_never); check_list_is(l, wa, 0, 0, "table/lookup-by-value-func/rejecting-predicate", "p_hash_table_lookup_by_value(predicate that accepts nothing)"); p_list_free(l);
+            l = p_hash_table_lookup_by_value(t, VALS[v], cmp_always); check_list_is(l, wa, na, 0, "table/lookup-by-value-func/accepting-predicate", "p_hash_table_lookup_by_value(predicate that accepts everything)"); p_list_free(l);
+            l = p_hash_table_lookup_by_value(t, VALS[v], cmp_differs); check_list_is(l, wd, nd, 0, "table/lookup-by-value-func/non-reflexive-predicate", "p_hash_table_lookup_by_value(predicate that accepts the values that differ)"); p_list_free(l);
+            n_lists += 3;
         }
     }
     {   /* white-box: every reference pair appears exactly once in the chains */
@@ -305,7 +318,7 @@ int main(int argc, char **argv)
     if (argc < 3) return 2;
     hout_open();
     p_libsys_init();
-    VALS[0] = NULL; VALS[1] = &VA; VALS[2] = &VB;
+    VALS[0] = NULL; VALS[1] = &VA; VALS[2] = &VB; VALS[3] = (void *)(uintptr_t)-1;      /* the all-ones value is also the in-band not-found marker of p_hash_table_lookup */
     WHAT = argv[1]; LIM = atoi(argv[2]);
     if (argc >= 5 && !strcmp(argv[3], "--replay")) return !strcmp(WHAT, "table") ? table_replay(argv[4]) : list_replay(argv[4]);
     if (!strcmp(WHAT, "table")) return table_bfs(LIM);
